@@ -7,7 +7,8 @@ SeqKernels      crate fns called on the *true* edge of a `Params::is_sequential(
 Par methods     transformations / setters / terminals of the `Par` trait, by signature
 """
 from .facts import strip_generics, callee_of
-from .terms import subterms
+from .terms import subterms, alternatives
+from .lib import is_coniter_call, is_buffered_next
 
 PAR_TRAIT = 'par_iter::Par'
 THREAD_SCOPE = 'std::thread::scope'
@@ -50,6 +51,8 @@ class Slots:
         # ---- tasks: what the thread_task closure calls
         self.task_of_site = {}        # (body, bb) -> (task closure name, [task fn names])
         self.tasks = []
+        self.task_parent = {}         # helper task -> (dispatcher, call block in the dispatcher)
+        self.dispatchers = []
         for (bn, bb, entry) in self.runner_call_sites:
             r = ctx.run(bn)
             c = r.calls.get(bb)
@@ -66,6 +69,7 @@ class Slots:
                     cal = callee_of(t)
                     if t.get('local') and cal in F.bodies:
                         fns.append(cal)
+            fns = self.expand_dispatchers(ctx, fns)
             self.task_of_site[(bn, bb)] = (clo, fns)
             for f in fns:
                 if f not in self.tasks:
@@ -108,6 +112,7 @@ class Slots:
                 self.terminals.append(n)
         # inherent terminals (find_with_index & co) and constructors/conversions
         self.inherent_terminals = []
+        self.inherent_transformations = []
         self.constructors = []
         self.sources = []     # par()/into_par()/cloned()/copied()
         for b in F.bodies.values():
@@ -116,16 +121,61 @@ class Slots:
             st = b.d.get('impl_self')
             m = b.d.get('method')
             if st in self.par_impl_types and not b.d.get('impl_trait'):
-                if m == 'new':
+                has_self = bool(b.arg_locals()) and b.local_name(b.arg_locals()[0]) == 'self'
+                if m == 'new' or (not has_self and self.returns_par(b) and b.d.get('ret_head') == st):
+                    # `new` and other associated functions without a receiver that return Self (`with_params(iter, params)`)
                     self.constructors.append(b.name)
                 elif m.startswith('destruct') or m in ('iter_len',):
                     pass
                 elif not self.returns_par(b):
                     self.inherent_terminals.append(b.name)
+                elif b.arg_locals() and b.local_name(b.arg_locals()[0]) == 'self':
+                    # an inherent method that turns one computation into another: a transformation like those of the trait
+                    self.transformations.append(b.name)
+                    self.inherent_transformations.append(b.name)
             elif self.returns_par(b) and (b.d.get('impl_trait') or b.d.get('trait_default')):
                 self.sources.append(b.name)
 
     # ------------------------------------------------------------------
+    def expand_dispatchers(self, ctx, fns, depth=0):
+        """a task that only dispatches (`if chunk_size == 1 { one_by_one(iter, ..) } else { in_chunks(iter, .., c) }`) is replaced
+        by the functions it dispatches to: those hold the pull loops the task rules are about.  A dispatcher is loop-free, makes no
+        call on the concurrent iterator itself, and returns on every path the value of a crate function that received its iterator."""
+        F = self.ctx.facts
+        out = []
+        for f in fns:
+            b = F.bodies[f]
+            cfg = ctx.cfg(b)
+            if depth > 2 or cfg.loops() or not b.arg_locals():
+                out.append(f)
+                continue
+            own = [t for _, t in b.calls() if is_coniter_call(t) or is_buffered_next(t)]
+            if own or F.closures_in(b):
+                out.append(f)
+                continue
+            r = ctx.run0(f)
+            it = ('param', b.local_name(b.arg_locals()[0]) or '_1')
+            alts = [a for a in alternatives(r.ret)] if r.ret is not None else []
+            helpers = []
+            ok = bool(alts)
+            for a in alts:
+                if a[0] == 'call' and a[1] in F.bodies and it in a[2]:
+                    helpers.append(a[1])
+                else:
+                    ok = False
+            if not ok:
+                out.append(f)
+                continue
+            sites = {}
+            for bb, c in r.calls.items():
+                if c['res'] in alts:
+                    sites[c['res'][1]] = (bb, c)
+            for h in dict.fromkeys(helpers):
+                self.task_parent[h] = (f, sites.get(h, (None, None))[0])
+            self.dispatchers.append(f)
+            out.extend(self.expand_dispatchers(ctx, list(dict.fromkeys(helpers)), depth + 1))
+        return out
+
     def returns_par(self, b):
         rh = b.d.get('ret_head', '')
         if rh.startswith('adt:') and rh in self.par_impl_types:
